@@ -20,7 +20,7 @@ Definition lit_pose_bbox : list string :=
 Definition lit_numpy_init : list string :=
   [ "if isinstance(data, np.ndarray):
     mask = confidence == 0
-    stacked_mask = np.stack([mask] * data.shape[-1], axis=3)
+    stacked_mask = np.stack([mask] * data.shape[-1], axis=-1)
     data = ma.masked_array(data, mask=stacked_mask)";
     "super().__init__(fps, data, confidence)" ].
 Definition lit_numpy_flip : list string :=
